@@ -33,6 +33,7 @@ const ppHeader = "PROXY TCP4 198.51.100.1 203.0.113.2 1111 2222\r\n"
 type Scn struct {
 	Specs  []mrun.Spec `json:"matchers"` // one route each, in this order
 	PP     bool        `json:"pp"`       // a proxy_protocol route (matcher + handler) in front
+	Or     bool        `json:"or"`       // the matchers are the OR'ed matcher sets of ONE route
 	Stream string      `json:"stream,omitempty"`
 	Split  int         `json:"split,omitempty"`
 }
@@ -58,13 +59,21 @@ func build(sc *Scn) (*built, error) {
 	if sc.PP {
 		routes = append(routes, map[string]any{"match": []map[string]any{{"proxy_protocol": map[string]any{}}}, "handle": []map[string]any{{"handler": "proxy_protocol"}}})
 	}
+	var orSets []map[string]any
 	for i, sp := range sc.Specs {
 		var cfg any = map[string]any{}
 		if len(sp.Config) > 0 {
 			json.Unmarshal(sp.Config, &cfg)
 		}
+		if sc.Or {
+			orSets = append(orSets, map[string]any{sp.Module: cfg})
+			continue
+		}
 		routes = append(routes, map[string]any{"match": []map[string]any{{sp.Module: cfg}},
 			"handle": []map[string]any{{"handler": "h_rec", "id": fmt.Sprintf("r%d", i), "buf": 96}}})
+	}
+	if sc.Or {
+		routes = append(routes, map[string]any{"match": orSets, "handle": []map[string]any{{"handler": "h_rec", "id": "r-or", "buf": 96}}})
 	}
 	var rl layer4.RouteList
 	if err := json.Unmarshal(hm.J(routes), &rl); err != nil {
@@ -297,6 +306,9 @@ func describe(sc *Scn) string {
 	if sc.PP {
 		parts = append(parts, "proxy_protocol->strip")
 	}
+	if sc.Or {
+		parts = append(parts, "one route, OR of:")
+	}
 	for _, sp := range sc.Specs {
 		parts = append(parts, sp.Module+string(sp.Config))
 	}
@@ -324,7 +336,7 @@ func main() {
 	runner.Main(&runner.Harness{
 		ID:    "C06",
 		Level: "model_checking",
-		Rule:  "route lists of the real stream matchers (one default configuration per protocol: every ordered pair; every filtered configuration paired with every other protocol's default), each route with a terminal recorder, alone and behind a proxy_protocol route whose shipped handler strips a PROXY v1 header; up to 6 corpus messages per matcher, plus first messages of 6145 / 7500 / 8192 bytes for http and postgres; each stream delivered whole and at EVERY two-segment split point (big messages: chunk boundaries +-3 and every 97th byte) through the real RouteList.Compile / prefetch; oracle: the outcome (recorder, bytes read, fallback, error) is the same as for whole delivery; states = distinct (route list, stream, split) triples",
+		Rule:  "route lists of the real stream matchers (one default configuration per protocol: every ordered pair; every filtered configuration paired with every other protocol's default), each route with a terminal recorder (also: both matchers as the OR'ed sets of one route), alone and behind a proxy_protocol route whose shipped handler strips a PROXY v1 header; up to 6 corpus messages per matcher, plus first messages of 6145 / 7500 / 8192 bytes for http and postgres; each stream delivered whole and at EVERY two-segment split point (big messages: chunk boundaries +-3 and every 97th byte) through the real RouteList.Compile / prefetch; oracle: the outcome (recorder, bytes read, fallback, error) is the same as for whole delivery; states = distinct (route list, stream, split) triples",
 		Assumptions: []string{
 			"differential oracle: what the right outcome is for whole delivery is not judged here (C02, C14)",
 			"two segments per stream; all segmentations of abstract matchers are C02's",
@@ -351,6 +363,12 @@ func main() {
 						}
 						if !yield(&Scn{Specs: []mrun.Spec{a, b}, PP: pp}) {
 							return
+						}
+						if !pp && string(a.Config) == string(defaultOf(defaults, a.Module).Config) {
+							// ... and as the two OR'ed matcher sets of one route
+							if !yield(&Scn{Specs: []mrun.Spec{a, b}, Or: true}) {
+								return
+							}
 						}
 						if string(a.Config) != string(defaultOf(defaults, a.Module).Config) {
 							if !yield(&Scn{Specs: []mrun.Spec{b, a}, PP: pp}) {
